@@ -1,4 +1,5 @@
 import Bgpfu.Thm.C05
+import Bgpfu.Lemmas.Framing
 /-!
 # C18 — abandoning one reply future does not disturb other outstanding requests
 Reachable states of the current code: `St.run {} acts`, `acts` arbitrary — drop actions may occur anywhere in
@@ -119,3 +120,87 @@ example : let s := St.run {} [.send true, .send true, .send true, .poll 0, .poll
   decide
 
 end Session
+
+
+/-! ## The transport below the session: abandoning a `recv()` in the middle of a message
+
+A reply future that is dropped while it is the reader is suspended inside the transport's
+`recv()` (`read_buf().await`). The TLS / CLI receiver keeps its buffer in the handle, so what it had
+read so far is still there for the next reader. In the framing model a `recv` that consumed the reads
+`r₁` and is then abandoned is `recv … = .pending buf'`; the next call starts from `buf'`. -/
+namespace Framing
+
+theorem specRecv_pending_append (r1 r2 : List Read) (buf buf' : List Byte)
+    (h : specRecv r1 buf = .pending buf') : specRecv (r1 ++ r2) buf = specRecv r2 buf' := by
+  induction r1 generalizing buf with
+  | nil =>
+    simp only [specRecv] at h
+    cases hf : find marker buf with
+    | some i => simp [hf] at h
+    | none =>
+      simp only [hf, Out.pending.injEq] at h
+      subst h
+      rfl
+  | cons r rs ih =>
+    simp only [specRecv] at h
+    cases hf : find marker buf with
+    | some i => simp [hf] at h
+    | none =>
+      simp only [hf] at h
+      cases r with
+      | data bs =>
+        simp only [List.cons_append, specRecv, hf]
+        exact ih _ h
+      | ioErr => simp at h
+      | eof => simp at h
+
+/-- **cancel-safety of `Receiver::recv`** (current code): abandoning a call that has consumed the
+reads `r₁` without completing a message, and calling `recv` again, gives exactly what one
+uninterrupted call would have given on `r₁ ++ r₂` — the same message, the same remaining buffer,
+the same unread input — for every buffer content and every segmentation. -/
+theorem recv_cancel_safe (buf buf' : List Byte) (r1 r2 : List Read)
+    (h : recv .fixed buf r1 = .pending buf') :
+    recv .fixed buf' r2 = recv .fixed buf (r1 ++ r2) := by
+  rw [recv_eq_spec] at h
+  rw [recv_eq_spec, recv_eq_spec]
+  exact (specRecv_pending_append r1 r2 buf buf' h).symm
+
+/-- the buffer after a sequence of abandoned calls, each of which consumed one batch of reads
+without completing a message (`none` if one of them did complete or fail: it was not abandoned
+in the middle of a message then) -/
+def afterAbandoned : List Byte → List (List Read) → Option (List Byte)
+  | buf, [] => some buf
+  | buf, b :: bs =>
+    match recv .fixed buf b with
+    | .pending buf' => afterAbandoned buf' bs
+    | _ => none
+
+/-- … and so for any number of abandoned calls in a row -/
+theorem recv_cancel_safe_many (buf buf' : List Byte) (batches : List (List Read)) (r : List Read)
+    (h : afterAbandoned buf batches = some buf') :
+    recv .fixed buf' r = recv .fixed buf (batches.flatten ++ r) := by
+  induction batches generalizing buf with
+  | nil => simp only [afterAbandoned, Option.some.injEq] at h; subst h; simp
+  | cons b bs ih =>
+    simp only [afterAbandoned] at h
+    cases hb : recv .fixed buf b with
+    | pending b' =>
+      simp only [hb] at h
+      rw [ih b' h, List.flatten_cons, List.append_assoc]
+      exact recv_cancel_safe buf b' b (bs.flatten ++ r) hb
+    | msg m b' rest => simp [hb] at h
+    | err b' => simp [hb] at h
+    | spin b' => simp [hb] at h
+
+/-- non-vacuity: a reply cut in three, the reader abandoned after the first and after the second piece -/
+example : afterAbandoned [] [[.data [60, 97]], [.data [47, 62, 93, 93]]] = some [60, 97, 47, 62, 93, 93] ∧
+    recv .fixed [60, 97, 47, 62, 93, 93] [.data [62, 93, 93, 62]] = .msg [60, 97, 47, 62, 93, 93, 62, 93, 93, 62] [] [] := by
+  decide
+
+/-- what the theorem excludes: a receiver whose buffer does not survive the abandoned call (e.g. one
+that moves the buffer into the future) hands the next reader only the tail of the message -/
+theorem lost_buffer_cex :
+    recv .fixed [] [.data [62, 93, 93, 62]] ≠ recv .fixed [] ([.data [60, 97, 47, 62, 93, 93]] ++ [.data [62, 93, 93, 62]]) := by
+  decide
+
+end Framing
